@@ -18,7 +18,8 @@ RULE = (
     "lists x save_report; each case runs with an empty scratch directory as cwd, fd-level capture of stdout/stderr and an audit "
     "hook logging every file opened for writing / mkdir / rename / remove / chdir. Default path: nothing printed, nothing "
     "written. With show/save_report: no exception, identical return value, only the documented report file in cwd (iff "
-    "requested), stdout non-empty for show. Non-trivial: show/save_report cases whose result is not a hex string; distinct "
+    "requested), stdout non-empty for show. One fixed workload is additionally run in two CHILD interpreters (UTF-8 locale vs "
+    "LC_ALL=C with UTF-8 mode and locale coercion off) and must give identical, error-free results. Non-trivial: show/save_report cases whose result is not a hex string; distinct "
     "by (text, bg, settings, flags)."
 )
 ASSUMPTIONS = ["sys.addaudithook sees every Python-level file open; fd-level dup2 capture sees print and rich output",
@@ -147,6 +148,12 @@ def strategy(draw):
         a = draw(st.sampled_from([50, 75, 100, 2, 99.5]))
         case["text"] = f"rgba({c[0]}, {c[1]}, {c[2]}, {a})" if draw(st.booleans()) else gc.enc((c[0], c[1], c[2], a))
         case["tkind"] = "translucent:percent-alpha"
+    if draw(st.integers(0, 19)) == 0:
+        # the library's tuple spellings with string components (numbers or percentages as strings)
+        c = draw(gc.rgb())
+        comps = [str(v) for v in c] if draw(st.booleans()) else [f"{v * 100 / 255:.1f}%" for v in c]
+        case["text"] = gc.enc(tuple(comps) if draw(st.booleans()) else comps)
+        case["tkind"] = "tuple-of-strings"
     case["same_object"] = draw(st.booleans())
     case["show"] = draw(st.booleans())
     case["save"] = draw(st.booleans())
@@ -155,6 +162,34 @@ def strategy(draw):
     return case
 
 
+def env_items(shard, nshards):
+    return [{"which": "api"}] if shard == 0 else []
+
+
+def env_judge(case):
+    """The same small workload in two child interpreters: UTF-8 locale vs. the C locale (UTF-8 mode and locale coercion off).
+    Previews and reports must neither raise nor differ: nothing may depend on the platform's default text encoding."""
+    from vlib import envleg
+    from vlib.runner import HarnessError
+
+    ref = envleg.run_child(case["which"], False)
+    if "__crash__" in ref:
+        raise HarnessError(f"environment leg crashed under the UTF-8 locale: {ref['__crash__']}")
+    if ref.get("errors"):
+        raise Violation("preview-or-report-fails", f"under the UTF-8 locale: {ref['errors'][:2]}")
+    c = envleg.run_child(case["which"], True)
+    if "__crash__" in c:
+        raise Violation("locale-dependent:crash", f"the workload crashes under LC_ALL=C (preferred encoding ASCII): {c['__crash__'][-300:]}")
+    if c.get("errors"):
+        raise Violation("locale-dependent:preview-or-report", f"under LC_ALL=C (preferred encoding {c.get('preferred_encoding')}): {c['errors'][:2]}")
+    if c["results"] != ref["results"]:
+        raise Violation("locale-dependent:results", "results differ between the UTF-8 and the C locale")
+    return {"nt": ("env", case["which"], c.get("preferred_encoding")), "cls": ["c-locale-child"], "sample": {"env": "LC_ALL=C PYTHONUTF8=0 PYTHONCOERCECLOCALE=0", "calls": len(c["results"])}}
+
+
 def subchecks(tier):
     q = tier == "quick"
-    return [Hyp("silent-by-default-and-pure-previews", strategy, judge, examples=3200 if q else 80000)]
+    from vlib.runner import Enum
+
+    return [Hyp("silent-by-default-and-pure-previews", strategy, judge, examples=3200 if q else 80000),
+            Enum("c-locale-fresh-interpreter", judge=env_judge, items=env_items, shards=1)]
